@@ -146,15 +146,30 @@ class Lin:
         if tc and tc[0] == "call" and tc[1].split("::")[-1] in ("collect", "from_iter") and tc[2]:
             src = self.expand(tc[2][0])
             okc = True
+            skips = []
             for _ in range(12):
+                if isinstance(src, tuple) and src and src[0] == "liter" and all(ad[0] == "map" for ad in src[2]):
+                    src = self.expand(src[1])          # a lazy chain of `map`s over an iterator: as many elements as the iterator
+                    continue
                 if not (isinstance(src, tuple) and src and src[0] == "sym" and src[1][0] == "call" and src[1][2]):
                     break
                 nm = src[1][1].split("::")[-1]
                 if nm in ("map", "copied", "cloned", "enumerate", "into_iter", "by_ref"):
                     src = self.expand(src[1][2][0])
                     continue
+                if nm == "skip" and len(src[1][2]) == 2:
+                    skips.append(src[1][2][1])
+                    src = self.expand(src[1][2][0])
+                    continue
                 if nm in ("iter", "iter_mut"):
-                    return self.len_of(self.expand(src[1][2][0]))
+                    base_len = self.len_of(self.expand(src[1][2][0]))
+                    if not skips:
+                        return base_len
+                    if len(skips) == 1 and len(base_len[0]) == 1 and base_len[1] == 0 and list(base_len[0].values()) == [1]:
+                        # x.iter().skip(n): len(x).saturating_sub(n) elements (aux_facts relates the result to len(x) and n)
+                        return atom(("call", "usize::saturating_sub", (("sym", list(base_len[0])[0]), skips[0])))
+                    okc = False
+                    break
                 okc = False
                 break
         if t and t[0] == "deref":
@@ -257,7 +272,8 @@ def aux_facts(lin, forms):
     # r = x.saturating_sub(y) with r >= 1 known  =>  r == x - y
     base = list(forms) + out
     for (a, lx, ly) in sat:
-        if entails(base, lin_add(const(1), atom(a), -1)):
+        if entails(base, lin_add(const(1), atom(a), -1)) or entails(base, lin_add(ly, lx, -1)):
+            # (the difference is positive, or the subtrahend is known not to exceed the minuend: no saturation)
             diff = lin_add(lx, ly, -1)
             out.append(lin_add(atom(a), diff, -1))
             out.append(lin_add(diff, atom(a), -1))
